@@ -214,16 +214,28 @@ theorem nodup_listDbs {s : Server} (h : WFs s) : s.listDbs.Nodup := by
   unfold Server.listDbs
   exact h.1.sublist ((List.filter_sublist (l := s)).map _)
 
-theorem mem_listCollsFiltered (s : Server) (d : String) (f : NameFilter) (n : String) :
+theorem contains_createdColls {s : Server} (h : WFs s) (d n : String) :
+    (createdColls (s.db d)).contains n = (s.coll d n).isCreated := by
+  have := mem_createdColls (wfdb_db h d) n
+  cases hc : (s.coll d n).isCreated
+  · cases hx : (createdColls (s.db d)).contains n
+    · rfl
+    · simp only [List.contains_eq_mem, decide_eq_true_eq] at hx
+      have := this.mp hx
+      unfold Server.coll at hc; rw [hc] at this; simp at this
+  · simp only [List.contains_eq_mem, decide_eq_true_eq]
+    exact this.mpr (by unfold Server.coll at hc; exact hc)
+
+theorem mem_listCollsFiltered {s : Server} (h : WFs s) (d : String) (f : NameFilter) (n : String) :
     n ∈ s.listCollsFiltered d f ↔
-      (alGet? n (s.db d)).isSome = true ∧ f.applies n = true ∧ isSystem n = false := by
+      (s.coll d n).isCreated = true ∧ f.applies n = true ∧ isSystem n = false := by
   unfold Server.listCollsFiltered
-  rw [List.mem_filter, ← alGet?_isSome_iff]
-  simp
+  rw [List.mem_filter, mem_createdColls (wfdb_db h d)]
+  simp [Server.coll]
 
 theorem nodup_listCollsFiltered {s : Server} (h : WFs s) (d : String) (f : NameFilter) :
     (s.listCollsFiltered d f).Nodup :=
-  (wfdb_db h d).filter _
+  (nodup_createdColls (wfdb_db h d)).filter _
 
 /-! ### listings of the oracle -/
 
